@@ -1,0 +1,67 @@
+//! Verification hooks (cargo feature `verif`): a read-only dump of the mempool's containers.
+
+use std::collections::HashMap;
+
+use astria_core::primitive::v1::{
+    asset::IbcPrefixed,
+    TransactionId,
+};
+
+use super::{
+    transactions_container::{
+        TransactionsContainer as _,
+        TransactionsForAccount as _,
+    },
+    Mempool,
+};
+use crate::verif::{
+    MempoolDump,
+    MempoolEntry,
+};
+
+impl Mempool {
+    pub(crate) async fn verif_dump(&self) -> MempoolDump {
+        let inner = self.inner.read().await;
+        let mut dump = MempoolDump::default();
+        for (address, account) in inner.pending.txs() {
+            for (nonce, ttx) in account.txs() {
+                dump.pending.push(MempoolEntry {
+                    address: *address,
+                    nonce: *nonce,
+                    tx_id: *ttx.id(),
+                    costs: sorted(ttx.verif_costs()),
+                    group: format!("{:?}", ttx.verif_group()),
+                });
+            }
+        }
+        for (address, account) in inner.parked.txs() {
+            for (nonce, ttx) in account.txs() {
+                dump.parked.push(MempoolEntry {
+                    address: *address,
+                    nonce: *nonce,
+                    tx_id: *ttx.id(),
+                    costs: sorted(ttx.verif_costs()),
+                    group: format!("{:?}", ttx.verif_group()),
+                });
+            }
+        }
+        dump.pending.sort_by_key(|e| (e.address, e.nonce));
+        dump.parked.sort_by_key(|e| (e.address, e.nonce));
+        dump.contained = inner.contained_txs.iter().copied().collect();
+        dump.contained.sort_by_key(|id| id.get());
+        dump.removal_cache = inner
+            .comet_bft_removal_cache
+            .cache
+            .iter()
+            .map(|(id, reason)| (*id, reason.to_string()))
+            .collect();
+        dump.removal_cache.sort_by_key(|(id, _)| id.get());
+        dump
+    }
+}
+
+fn sorted(costs: &HashMap<IbcPrefixed, u128>) -> Vec<(IbcPrefixed, u128)> {
+    let mut out: Vec<_> = costs.iter().map(|(asset, cost)| (*asset, *cost)).collect();
+    out.sort_by_key(|(asset, _)| asset.to_string());
+    out
+}
